@@ -261,9 +261,12 @@ pub fn cells(tier: Tier) -> Vec<CellPlan> {
     // (the clean-up runs every `timeout`; with five rounds a period of three or four frames puts
     // one of its runs between the sending of a message and the late arrival of its
     // acknowledgement, whatever the phase)
-    for (name, timeout, d) in [("timeout-30", 30, 2), ("timeout-40", 40, if q { 2 } else { 3 })] {
+    // (third cell: the virtual clock was paused for longer than the timeout earlier on, so the
+    // real clock is ahead of the one the timestamps come from)
+    for (name, timeout, d, paused) in [("timeout-30", 30, 2, 0), ("timeout-40", 40, if q { 2 } else { 3 }, 0), ("timeout-30-paused", 30, 2, 5)] {
         let mut c = mutation_cell(name);
         c.cfg.timeout_ms = timeout;
+        c.cfg.paused_frames = paused;
         c.cfg.dt_ms = 10;
         c.init = vec![Op::Spawn(0, cells::M_A)];
         c.alphabet = vec![Op::Nop, Op::Mut(0, TA)];
